@@ -1,27 +1,82 @@
 #!/usr/bin/env python3
-"""seed_matrix.py [PROP-k ...]: run the quick check of each kept seeded change's property against a scratch
-worktree with the change applied and write /verif/seeded/RESULTS.md (which signatures fired)."""
+"""seed_matrix.py [-j N] [name ...]: run the quick check of each kept seeded change's property against a
+scratch worktree with the change applied (tools/seedtest.sh, VERIF_REPO) and write
+  seeded/RESULTS.md         breaking changes: which signatures fired (expected: DETECTED)
+  seeded-benign/RESULTS.md  property-preserving changes: expected silent (exit 0)
+Names select directories of either set (default: all)."""
 import json, os, re, subprocess, sys
-root = "/verif/seeded"
-names = sys.argv[1:] or sorted(d for d in os.listdir(root) if os.path.isdir(os.path.join(root, d)))
-rows = []
-for n in names:
+from concurrent.futures import ThreadPoolExecutor
+
+args = sys.argv[1:]
+jobs = 3
+if args and args[0] == "-j":
+    jobs = int(args[1]); args = args[2:]
+SETS = [("/verif/seeded", False), ("/verif/seeded-benign", True)]
+
+
+def run(root, n, benign):
     prop = n[:3]
     patch = os.path.join(root, n, "patch.diff")
-    p = subprocess.run(["/verif/tools/seedtest.sh", prop, patch], stdout=subprocess.PIPE, stderr=subprocess.STDOUT, text=True)
+    p = subprocess.run(["/verif/tools/seedtest.sh", prop, patch], stdout=subprocess.PIPE, stderr=subprocess.STDOUT,
+                       text=True, errors="replace")
     sigs = re.findall(r"signature: (.*)", p.stdout)
     m = re.search(r"exit=(\d+)", p.stdout)
     rc = m.group(1) if m else "?"
-    status = "DETECTED" if rc == "1" else ("patch does not apply" if "PATCH-DOES-NOT-APPLY" in p.stdout else "missed (exit %s)" % rc)
-    rows.append((n, status, sigs[:4]))
+    if "PATCH-DOES-NOT-APPLY" in p.stdout:
+        status = "patch does not apply"
+    elif benign:
+        status = "silent" if rc == "0" else ("ALARM" if rc == "1" else "inconclusive (exit %s)" % rc)
+    else:
+        status = "DETECTED" if rc == "1" else "missed (exit %s)" % rc
     meta_p = os.path.join(root, n, "meta.json")
-    if os.path.exists(meta_p):
-        meta = json.load(open(meta_p))
-        meta["quick_check_verdict"] = status
-        meta["quick_check_signatures"] = sigs[:8]
-        json.dump(meta, open(meta_p, "w"), indent=1)
+    meta = json.load(open(meta_p)) if os.path.exists(meta_p) else {}
+    meta["quick_check_verdict"] = status
+    meta["quick_check_signatures"] = sigs[:8]
+    meta["quick_check_repo_head"] = subprocess.run(["git", "-C", "/repo", "rev-parse", "--short", "HEAD"],
+                                                    stdout=subprocess.PIPE, text=True).stdout.strip()
+    json.dump(meta, open(meta_p, "w"), indent=1)
     print(n, status, sigs[:2], flush=True)
-with open(os.path.join(root, "RESULTS.md"), "w") as f:
-    f.write("# Seeded changes vs. quick checks\n\n| seed | verdict of `./check <prop> quick` on the changed tree | first signatures |\n|---|---|---|\n")
-    for n, st, sg in rows:
-        f.write("| %s | %s | %s |\n" % (n, st, "<br>".join("`%s`" % s for s in sg)))
+    return n, status, sigs[:4]
+
+
+def title(root, n):
+    try:
+        m = json.load(open(os.path.join(root, n, "meta.json")))
+    except Exception:
+        m = {}
+    t = m.get("title")
+    if not t:
+        txt = m.get("needs_to_manifest") or ""
+        np = os.path.join(root, n, "notes.md")
+        if not txt and os.path.exists(np):
+            txt = open(np, errors="replace").read()
+        t = next((l.strip("# ").strip() for l in txt.splitlines() if l.strip()), "")
+        t = re.sub(r"^C\d\d\s*(/|seed|-)?\s*(change|seed)?\s*\d*\s*[—–-]+\s*", "", t)
+    return t[:160].replace("|", "\\|")
+
+
+for root, benign in SETS:
+    if not os.path.isdir(root):
+        continue
+    allnames = sorted(d for d in os.listdir(root) if os.path.isdir(os.path.join(root, d)))
+    names = [n for n in allnames if not args or n in args]
+    if not names:
+        continue
+    with ThreadPoolExecutor(jobs) as ex:
+        rows = list(ex.map(lambda n: run(root, n, benign), names))
+    res = {}
+    for n in allnames:
+        try:
+            m = json.load(open(os.path.join(root, n, "meta.json")))
+            res[n] = (m.get("quick_check_verdict", "not run"), m.get("quick_check_signatures", [])[:4])
+        except Exception:
+            res[n] = ("not run", [])
+    with open(os.path.join(root, "RESULTS.md"), "w") as f:
+        if benign:
+            f.write("# Property-preserving changes vs. quick checks (expected: silent)\n\n| change | what it changes | verdict of `./check <prop> quick` on the changed tree |\n|---|---|---|\n")
+            for n in allnames:
+                f.write("| %s | %s | %s |\n" % (n, title(root, n), res[n][0]))
+        else:
+            f.write("# Seeded breaking changes vs. quick checks (expected: DETECTED)\n\n| seed | change | verdict | first signatures |\n|---|---|---|---|\n")
+            for n in allnames:
+                f.write("| %s | %s | %s | %s |\n" % (n, title(root, n), res[n][0], "<br>".join("`%s`" % s.replace("|", "\\|") for s in res[n][1])))
